@@ -10,6 +10,10 @@ CHECKS = {
    text='Explicit-state BFS over the real chain.Manager+DBStore: all fork-tree shapes (4 blocks quick / 5 thorough) x 3 hardfork regimes x every single-block corruption kind at every position; every submission op (single/duplicate/orphan, segments, mixed batches, AddValidatedV2Blocks) from every reachable state to depth 5/7. After every transition: parent links, every best-chain block reference-valid, tip/State() equal to an independent core/consensus replay, work monotone, tip moves only with sufficient work, failed reorg leaves the canonical store dump unchanged, valid heavier single-branch chains are adopted.',
    note='go.sia.tech/core consensus is the trusted reference; depth and tree-size bounds; mixed-branch batches exempt from the adoption clause.',
    technique='explicit-state model checking of the implementation (BFS, complete state keys, clone+replay-validated successors) against an independent reference replay', design='§3 E1, §4 C01'),
+ 'C02': dict(level='model_checking', engine='chainmc',
+   text='Explicit-state BFS over the real Manager+DBStore on storyline universes (every element-changing transaction kind x fork point x branch variant {empty, shifted, conflicting} x surplus x 3 hardfork regimes). In every distinct state the canonical store dump (index, states, blocks with supplements, element buckets, expiration lists in order, proofs served through SupplementTipTransaction and verified against the tip accumulator) must equal that of a fresh node fed the same best chain linearly; expiration lists are additionally compared with the reference ledger after every single block apply/revert inside reorgs.',
+   note='One recorded known finding (expiration-list order after reverting a swap-removal, pinned by the repository\'s own test); any other divergence is a violation. Tree bucket compared via served proofs. Depth/size bounds as in evidence.',
+   technique='explicit-state model checking of the implementation with a differential twin oracle (linear-replay node) and block-granular reference-ledger comparison', design='§3 E1, §4 C02, §5.1'),
  'C17': dict(level='model_checking', engine='kvmc',
    text='Explicit-state enumeration of every applicable operation sequence up to length L (quick 5 / thorough 7 in-memory, 4 / 5 Bolt) over a 2x2x3 bucket/key/value alphabet on MemDB, CacheDB(MemDB), CacheDB(CacheDB(MemDB)), BoltChainDB and CacheDB(BoltChainDB); every Bucket/Get/Iter observation after every operation is compared with a two-map reference model.',
    note='nil-valued puts excluded; nil and empty Get results not distinguished; bbolt atomic commit trusted. Chain-level clause is exercised by the C02 backend replay.',
